@@ -247,6 +247,9 @@ impl StreamsState {
         self.pending.clear();
         self.send_streams = 0;
         self.data_sent = 0;
+        // The streams are gone and their 0-RTT packets were discarded: nothing is left that could
+        // ever be acknowledged
+        self.unacked_data = 0;
         // The connection-level limit remembered from the previous session must not survive either: the transport parameters
         // of this handshake replace it, even if they are lower.
         self.max_data = 0;
